@@ -1,5 +1,6 @@
 """C17: the dataset builders emit one sample per prefix of the production trace, all labelled by
 value equality with the gold annotation; the training entry point builds the documented pipeline."""
+import ast
 import z3
 
 from pyvc.values import Obj, Tok, UTerm, Builtin, ModVal, Unsupported, FuncVal, PyRaise
@@ -182,6 +183,85 @@ def _bools(e):
 _units_c17 = units
 
 
+def load_corpus_unit(world):
+    """load_timeparse_corpus with the file content stubbed (two JSON entries): one entry per record, in order, text
+    as stored, reference time = the stored ISO string, gold = parse_nb_string of the stored text form (the
+    contract of parse_nb_string is C18's round trip)"""
+    def setup(it, w):
+        return [{}]
+
+    def call(it, w, a):
+        seen = a[0]
+        recs = [{"text": "first text", "ref_time": "2020-02-29T23:59:58", "gold_parse": "Time[]{2020-03-01 X:X (X/X)}"},
+                {"text": "second", "ref_time": "1999-12-31T00:00:00", "gold_parse": "Duration[]{2 days}"}]
+        seen["recs"] = recs
+        cm = w.modules["ctparse.corpus"]
+        saved = {k: cm.globals.get(k) for k in ("json", "open", "TimeParseEntry")}
+        # the record type: field names read from the real declaration  TimeParseEntry = NamedTuple(name, [(field, type), ...])
+        fields = None
+        for st in cm.tree.body:
+            if isinstance(st, ast.Assign) and any(isinstance(t, ast.Name) and t.id == "TimeParseEntry" for t in st.targets) \
+                    and isinstance(st.value, ast.Call) and len(st.value.args) == 2 and isinstance(st.value.args[1], (ast.List, ast.Tuple)):
+                fields = [e.elts[0].value for e in st.value.args[1].elts if isinstance(e, ast.Tuple) and isinstance(e.elts[0], ast.Constant)]
+        if not fields:
+            raise Unsupported("declaration of TimeParseEntry not found")
+        seen["fields"] = fields
+
+        def mk_entry(it2, args, k):
+            vals = dict(zip(fields, args))
+            for kk, vv in k.items():
+                if kk not in fields or kk in vals:
+                    raise PyRaise("TypeError", "TimeParseEntry() got an unexpected or repeated argument %r" % kk)
+                vals[kk] = vv
+            if set(vals) != set(fields):
+                raise PyRaise("TypeError", "TimeParseEntry() missing arguments")
+            o = Obj(w.classes["Artifact"], fresh=True, label="entry")     # a record: only its named fields are looked at
+            o.attrs = dict(vals)
+            return o
+        cm.globals["TimeParseEntry"] = Builtin("TimeParseEntry", mk_entry)
+        cm.globals["json"] = ModVal("json", {"load": Builtin("json.load", lambda it2, args, k: [dict(r) for r in recs])})
+        cm.globals["open"] = Builtin("open", lambda it2, args, k: Tok("file"))
+        it.contracts = dict(it.contracts)
+
+        def pnb(it2, f2, args, kwargs):
+            seen.setdefault("parsed", []).append(args[0])
+            return Tok("gold:" + args[0])
+        it.contracts["corpus.parse_nb_string"] = pnb
+        try:
+            return it.call(w.func("corpus.load_timeparse_corpus"), ["corpus.json"], {})
+        finally:
+            for k, v in saved.items():
+                if v is None:
+                    cm.globals.pop(k, None)
+                else:
+                    cm.globals[k] = v
+
+    def ens(it, w, a, r):
+        seen = a[0]
+        recs = seen["recs"]
+        ok = isinstance(r, list) and len(r) == 2
+        items = []
+        if ok:
+            for x in r:
+                if isinstance(x, tuple) and len(x) == 3:
+                    items.append(x)
+                elif isinstance(x, Obj) and {"text", "ts", "gold"} <= set(x.attrs):
+                    items.append((x.attrs["text"], x.attrs["ts"], x.attrs["gold"]))
+                else:
+                    ok = False
+        from pyvc.models import DT
+        def ts_ok(t, iso):
+            want = (int(iso[0:4]), int(iso[5:7]), int(iso[8:10]), int(iso[11:13]), int(iso[14:16]), int(iso[17:19]))
+            return isinstance(t, DT) and all(it.simp(getattr(t, f)) == v if not isinstance(getattr(t, f), int) else getattr(t, f) == v
+                                             for f, v in zip(("year", "month", "day", "hour", "minute", "second"), want))
+        good = ok and all(items[i][0] == recs[i]["text"] and ts_ok(items[i][1], recs[i]["ref_time"])
+                          and getattr(items[i][2], "name", None) == "gold:" + recs[i]["gold_parse"] for i in range(2))
+        return [("one-entry-per-record-in-order-with-text-reference-time-and-parsed-gold", ["C17"], bool(good)),
+                ("gold-strings-go-through-parse_nb_string", ["C17", "C18"], seen.get("parsed") == [x["gold_parse"] for x in recs])]
+    return FuncUnit("corpus.load_timeparse_corpus", ["corpus.load_timeparse_corpus"], ["C17", "C18", "C12"], setup, call, ens,
+                    prop_map={"safety": ["C17"], "frame": ["C12"]})
+
+
 class MonotonicityUnit:
     """bounded stand-in (never counted as proved) for the duplication clause: real training entry point,
     small exhaustive scope + seeded random corpora (replay/bounded_c17.py).  The unbounded argument is the
@@ -230,4 +310,4 @@ class MonotonicityUnit:
 
 
 def units(world):  # noqa: F811
-    return _units_c17(world) + [run_corpus_unit(world), MonotonicityUnit()]
+    return _units_c17(world) + [run_corpus_unit(world), load_corpus_unit(world), MonotonicityUnit()]
